@@ -16,6 +16,11 @@ theorem preimageSpendHeight_awaiting (h b : Nat) : preimageSpendHeight false (so
 theorem preimageSpendHeight_final (a : Option Nat) (b : Nat) : preimageSpendHeight true a b = some none := rfl
 theorem preimageSpendHeight_none (b : Nat) : preimageSpendHeight false none b = none := rfl
 theorem counterpartyConfirmOutpointHeight_eq (h : Nat) : counterpartyConfirmOutpointHeight h = some h := rfl
+theorem holderConfirmStored_eq (h : Nat) : holderStoredHeight (holderConfirmOutpointHeight h) = some h := rfl
+theorem holderPreimageStored_awaiting (c b : Nat) :
+    holderStoredHeight (holderPreimageOutpointHeight (some c) b) = some c := rfl
+theorem holderPreimageStored_final (b : Nat) :
+    holderStoredHeight (holderPreimageOutpointHeight none b) = some b := rfl
 theorem claimDropped_iff (c h : Nat) : claimDropped c h = true ↔ h < c := by simp [claimDropped]
 theorem claimDropped_false_iff (c h : Nat) : claimDropped c h = false ↔ c ≤ h := by simp [claimDropped]
 theorem handlerEntryDropped_iff (c h : Nat) : handlerEntryDropped c h = true ↔ h < c := by simp [handlerEntryDropped]
@@ -494,7 +499,7 @@ theorem mem_preimageRequests {K : ClaimCat} {st : St} {pre' : List Nat} {p : Nat
       preimageSpendHeight final awH st.best = some sh ∧
       ∃ oi ∈ K.outs, oi.2.parent = txid ∧
         ((oi.2.holder = true ∧ preKnown pre' oi.2.needs = true ∧
-            req = (oi.1, holderStoredHeight (holderPreimageOutpointHeight st.best))) ∨
+            req = (oi.1, holderStoredHeight (holderPreimageOutpointHeight sh st.best))) ∨
          (oi.2.holder = false ∧ oi.2.needs = some p ∧ req = (oi.1, sh))) := by
   unfold preimageRequests at hreq
   split at hreq
@@ -533,29 +538,39 @@ theorem preimageRequests_has {K : ClaimCat} {st : St} {pre' : List Nat} {p : Nat
   simp only [hs, List.mem_filterMap]
   exact ⟨oi, hoi, by simp [hp, hh, hn]⟩
 
+theorem preimageRequests_has_holder {K : ClaimCat} {st : St} {pre' : List Nat} {p : Nat} {txid : Nat} {final : Bool}
+    {awH sh : Option Nat} (hf : fundingSpend st = some (txid, final, awH))
+    (hs : preimageSpendHeight final awH st.best = some sh) {oi : Nat × OutInfo} (hoi : oi ∈ K.outs)
+    (hp : oi.2.parent = txid) (hh : oi.2.holder = true) (hk : preKnown pre' oi.2.needs = true) :
+    (oi.1, holderStoredHeight (holderPreimageOutpointHeight sh st.best)) ∈ preimageRequests K st pre' p := by
+  unfold preimageRequests
+  rw [hf]
+  simp only [hs, List.mem_filterMap]
+  exact ⟨oi, hoi, by simp [hp, hh, hk]⟩
+
 /-! ### the reachable-state invariant of the claims layer -/
 
 /-- `U`: a set of outputs that no delivered transaction spends.  `dated`: every claim on an output
-    of the counterparty's commitment `C` is dated at the height of `C`'s awaiting
+    of the commitment `C` (the counterparty's or our own) is dated at the height of `C`'s awaiting
     FundingSpendConfirmation (or `C` is irrevocably confirmed).  `kept`: while `C` is confirmed and
     not yet irrevocable, every unspent output whose preimage is known has its claim, dated at `C`'s
     height. -/
 structure CInv (cat : Catalog) (K : ClaimCat) (C : Nat) (U : Nat → Prop) (s : CSt) : Prop where
   base : BInv cat s.st
-  dated : ∀ o i c, (o, i) ∈ K.outs → i.holder = false → (⟨o, c⟩ : Claim) ∈ s.claims →
+  dated : ∀ o i c, (o, i) ∈ K.outs → (⟨o, c⟩ : Claim) ∈ s.claims →
     FscAw C s.st c ∨ FscMat C s.st
   preK : ∀ o i c, (o, i) ∈ K.outs → (⟨o, c⟩ : Claim) ∈ s.claims → preKnown s.pre i.needs = true
-  kept : ∀ o i c, (o, i) ∈ K.outs → i.holder = false → U o → preKnown s.pre i.needs = true →
+  kept : ∀ o i c, (o, i) ∈ K.outs → U o → preKnown s.pre i.needs = true →
     FscAw C s.st c → ¬ FscMat C s.st → (⟨o, c⟩ : Claim) ∈ s.claims
   unspent : ∀ e ∈ s.hAw, ¬ U e.out
 
 theorem cinit_inv (cat : Catalog) (K : ClaimCat) (C : Nat) (U : Nat → Prop) (b : Nat) :
     CInv cat K C U (cinit b) where
   base := init_binv cat b
-  dated := by intro o i c _ _ h; simp [cinit] at h
+  dated := by intro o i c _ h; simp [cinit] at h
   preK := by intro o i c _ h; simp [cinit] at h
   kept := by
-    intro o i c _ _ _ _ h
+    intro o i c _ _ _ h
     obtain ⟨e, he, _⟩ := h
     simp [cinit, init] at he
   unspent := by intro e he; simp [cinit] at he
@@ -599,11 +614,10 @@ theorem cTxsConfirmed_inv {cat : Catalog} {K : ClaimCat} {C : Nat} {U : Nat → 
     rcases mem_noteSpendsAll he with h1 | ⟨t, ht, h1⟩
     · exact hI.unspent e h1
     · exact hsp t ht _ h1
-  -- a request generated by this call for a counterparty output: dated `h`, from the unknown `C`
+  -- a request generated by this call (either commitment kind): dated `h`, from the unknown `C`
   have reqFacts : ∀ req ∈ (txs.filter (fun t => !known s.st t)).flatMap (confirmRequests K s.pre h),
       ∀ o i, (o, i) ∈ K.outs → req.1 = o →
-        known s.st C = false ∧ C ∈ txs ∧ preKnown s.pre i.needs = true ∧
-        (i.holder = false → req.2 = some h) := by
+        known s.st C = false ∧ C ∈ txs ∧ preKnown s.pre i.needs = true ∧ req.2 = some h := by
     intro req hreq o i hoi ho
     obtain ⟨t, ht, hr⟩ := List.mem_flatMap.1 hreq
     obtain ⟨ht1, ht2⟩ := List.mem_filter.1 ht
@@ -617,23 +631,24 @@ theorem cTxsConfirmed_inv {cat : Catalog} {K : ClaimCat} {C : Nat} {U : Nat → 
     have htC : t = C := hp.symm.trans (hK.parents o i hoi)
     subst htC
     refine ⟨by simpa using ht2, ht1, hk, ?_⟩
-    intro hh
-    simp [hh, counterpartyConfirmOutpointHeight_eq]
+    cases hh : i.holder with
+    | true => simp [hh, holderConfirmStored_eq]
+    | false => simp [hh, counterpartyConfirmOutpointHeight_eq]
   constructor
   · exact txsConfirmed_binv hI.base
   · -- dated
-    intro o i c hoi hh hx
+    intro o i c hoi hx
     rw [hst]
     have hx1 := (mem_handlerMature_claims.1 hx).1
     rcases mem_registerAll hx1 with h1 | ⟨req, hreq, hxe, _⟩
-    · rcases hI.dated o i c hoi hh h1 with h2 | h2
+    · rcases hI.dated o i c hoi h1 with h2 | h2
       · exact awKeep c h2
       · exact Or.inr (matKeep h2)
     · have ho : req.1 = o := by cases hxe; rfl
       obtain ⟨hk, hC, _, h2⟩ := reqFacts req hreq o i hoi ho
       have hc : c = h := by
         have : c = claimCreationHeight req.2 h := by cases hxe; rfl
-        rw [this, h2 hh, claimCreationHeight_some]
+        rw [this, h2, claimCreationHeight_some]
       subst hc
       obtain ⟨ev, hev, hk2⟩ := hK.has_fsc
       have he := addTxs_adds (cat := cat) (h := c) hC hk hev
@@ -649,30 +664,31 @@ theorem cTxsConfirmed_inv {cat : Catalog} {K : ClaimCat} {C : Nat} {U : Nat → 
     · have ho : req.1 = o := by cases hxe; rfl
       exact (reqFacts req hreq o i hoi ho).2.2.1
   · -- kept
-    intro o i c hoi hh hU hk haw hm
+    intro o i c hoi hU hk haw hm
     rw [hst] at haw hm
     rw [hpre] at hk
     apply mem_handlerMature_claims.2
     refine ⟨?_, fun e he _ heq => hAwU e he (heq ▸ hU)⟩
     obtain ⟨e, he, ht, hk2, hhe⟩ := haw
     rcases mem_addTxs_awaiting (mem_txsConfirmed_awaiting.1 he).1 with h1 | ⟨h1, h2, h3, _⟩
-    · exact registerAll_mono (hI.kept o i c hoi hh hU hk ⟨e, h1, ht, hk2, hhe⟩ (fun hm' => hm (matKeep hm')))
+    · exact registerAll_mono (hI.kept o i c hoi hU hk ⟨e, h1, ht, hk2, hhe⟩ (fun hm' => hm (matKeep hm')))
     · rw [ht] at h1 h2
       have hch : c = h := hhe.symm.trans h3
       subst hch
-      have hreq0 : ((o, counterpartyConfirmOutpointHeight c) : Nat × Option Nat) ∈
+      have hreq0 : ∃ oc, ((o, oc) : Nat × Option Nat) ∈
           (txs.filter (fun t => !known s.st t)).flatMap (confirmRequests K s.pre c) := by
-        apply List.mem_flatMap.2
-        refine ⟨C, List.mem_filter.2 ⟨h2, by simp [h1]⟩, ?_⟩
+        refine ⟨if i.holder then holderStoredHeight (holderConfirmOutpointHeight c) else counterpartyConfirmOutpointHeight c,
+          List.mem_flatMap.2 ⟨C, List.mem_filter.2 ⟨h2, by simp [h1]⟩, ?_⟩⟩
         apply mem_confirmRequests.2
-        exact ⟨(o, i), hoi, hK.parents o i hoi, hk, by simp [hh]⟩
+        exact ⟨(o, i), hoi, hK.parents o i hoi, hk, rfl⟩
+      obtain ⟨oc, hreq0⟩ := hreq0
       obtain ⟨c', hc'⟩ := hasClaim_iff.1 (registerAll_has (H := c) (cl := s.claims) hreq0)
       rcases mem_registerAll hc' with h4 | ⟨req, hreq, hxe, _⟩
-      · rcases hI.dated o i c' hoi hh h4 with h5 | h5
+      · rcases hI.dated o i c' hoi h4 with h5 | h5
         · rw [FscAw_known h5] at h1; cases h1
         · rw [FscMat_known h5] at h1; cases h1
       · have ho : req.1 = o := by cases hxe; rfl
-        have h5 := (reqFacts req hreq o i hoi ho).2.2.2 hh
+        have h5 := (reqFacts req hreq o i hoi ho).2.2.2
         have : c' = c := by
           have : c' = claimCreationHeight req.2 c := by cases hxe; rfl
           rw [this, h5, claimCreationHeight_some]
@@ -696,21 +712,21 @@ theorem cRewind_inv {cat : Catalog} {K : ClaimCat} {C : Nat} {U : Nat → Prop} 
       exact ⟨e, List.mem_filter.2 ⟨he, by simp; omega⟩, ht, hk, hh⟩
   constructor
   · exact rewindTo_binv hI.base
-  · intro o i c hoi hh hx
+  · intro o i c hoi hx
     rw [hst]
     rw [hcl] at hx
     obtain ⟨h1, h2⟩ := mem_handlerDisconnect_claims.1 hx
-    rcases hI.dated o i c hoi hh h1 with h3 | h3
+    rcases hI.dated o i c hoi h1 with h3 | h3
     · exact Or.inl ((awIff c).2 ⟨h3, h2⟩)
     · exact Or.inr h3
   · intro o i c hoi hx
     rw [hcl] at hx
     exact hI.preK o i c hoi (mem_handlerDisconnect_claims.1 hx).1
-  · intro o i c hoi hh hU hk haw hm
+  · intro o i c hoi hU hk haw hm
     rw [hst] at haw
     rw [hcl]
     obtain ⟨h1, h2⟩ := (awIff c).1 haw
-    exact mem_handlerDisconnect_claims.2 ⟨hI.kept o i c hoi hh hU hk h1 hm, h2⟩
+    exact mem_handlerDisconnect_claims.2 ⟨hI.kept o i c hoi hU hk h1 hm, h2⟩
   · intro e he
     exact hI.unspent e (List.mem_filter.1 he).1
 
@@ -722,23 +738,23 @@ theorem cBestBlock_inv {cat : Catalog} {K : ClaimCat} {C : Nat} {U : Nat → Pro
     have mm := fun e => mem_bestBlock_up (s := s.st) (h := h) hh (e := e)
     constructor
     · exact bestBlock_binv hI.base
-    · intro o i c hoi hho hx
+    · intro o i c hoi hx
       have hx1 := (mem_handlerMature_claims.1 hx).1
-      rcases hI.dated o i c hoi hho hx1 with ⟨e, he, ht, hk, hhe⟩ | ⟨e, he, ht, hk⟩
+      rcases hI.dated o i c hoi hx1 with ⟨e, he, ht, hk, hhe⟩ | ⟨e, he, ht, hk⟩
       · cases hr : e.reached h with
         | false => exact Or.inl ⟨e, (mm e).1.2 ⟨he, hr⟩, ht, hk, hhe⟩
         | true => exact Or.inr ⟨e, (mm e).2.2 (Or.inr ⟨he, hr⟩), ht, hk⟩
       · exact Or.inr ⟨e, (mm e).2.2 (Or.inl he), ht, hk⟩
     · intro o i c hoi hx
       exact hI.preK o i c hoi (mem_handlerMature_claims.1 hx).1
-    · intro o i c hoi hho hU hk haw hm
+    · intro o i c hoi hU hk haw hm
       obtain ⟨e, he, ht, hk2, hhe⟩ := haw
       have h1 : FscAw C s.st c := ⟨e, ((mm e).1.1 he).1, ht, hk2, hhe⟩
       have h2 : ¬ FscMat C s.st := by
         rintro ⟨e', he', ht', hk'⟩
         exact hm ⟨e', (mm e').2.2 (Or.inl he'), ht', hk'⟩
       apply mem_handlerMature_claims.2
-      exact ⟨hI.kept o i c hoi hho hU hk h1 h2, fun e' he' _ heq => hI.unspent e' he' (heq ▸ hU)⟩
+      exact ⟨hI.kept o i c hoi hU hk h1 h2, fun e' he' _ heq => hI.unspent e' he' (heq ▸ hU)⟩
     · intro e he
       exact hI.unspent e (List.mem_filter.1 he).1
   · exact cRewind_inv hI
@@ -757,10 +773,11 @@ theorem cPreimage_inv {cat : Catalog} {K : ClaimCat} {C : Nat} {U : Nat → Prop
   have hcl : (cPreimage K s p).claims =
       registerAll (preimageRegisterHeight K s.st) s.claims (preimageRequests K s.st (addPre s.pre p) p) := rfl
   have preMono : ∀ q, q ∈ s.pre → q ∈ addPre s.pre p := fun q hq => (mem_addPre _ _ _).2 (Or.inl hq)
-  -- what a request of this call for output (o, i) looks like
+  -- what a request of this call for output (o, i) looks like (either commitment kind): the commitment
+  -- is irrevocable, or the request carries the height of its awaiting FundingSpendConfirmation
   have reqFacts : ∀ req ∈ preimageRequests K s.st (addPre s.pre p) p, ∀ o i, (o, i) ∈ K.outs → req.1 = o →
       preKnown (addPre s.pre p) i.needs = true ∧
-      (i.holder = false → (req.2 = none ∧ FscMat C s.st) ∨ (∃ c, req.2 = some c ∧ FscAw C s.st c)) := by
+      (FscMat C s.st ∨ (∃ c, req.2 = some c ∧ FscAw C s.st c)) := by
     intro req hreq o i hoi ho
     obtain ⟨txid, final, awH, sh, hf, hs, oi, hoi', _, hcase⟩ := mem_preimageRequests hreq
     have hoe : oi = (o, i) := by
@@ -770,36 +787,39 @@ theorem cPreimage_inv {cat : Catalog} {K : ClaimCat} {C : Nat} {U : Nat → Prop
       have := hK.functional o oi.2 i h2 hoi
       cases oi; simp_all
     subst hoe
-    rcases hcase with ⟨hh, hk, _⟩ | ⟨hh, hn, hr⟩
-    · exact ⟨hk, fun hf' => by rw [show i.holder = true from hh] at hf'; cases hf'⟩
-    · refine ⟨?_, fun _ => ?_⟩
+    -- what the spend height is
+    have hsh : (FscMat C s.st) ∨ (∃ c, sh = some c ∧ FscAw C s.st c) := by
+      rcases fundingSpend_cases hK hI.base hf with ⟨_, hm⟩ | ⟨c, hx, haw⟩
+      · exact Or.inl hm
+      · right
+        have : final = false ∧ awH = some c := by
+          have := congrArg Prod.snd hx; simp at this; exact this
+        rw [this.1, this.2, preimageSpendHeight_awaiting] at hs
+        exact ⟨c, (Option.some.inj hs).symm, haw⟩
+    rcases hcase with ⟨_, hk, hr⟩ | ⟨_, hn, hr⟩
+    · refine ⟨hk, ?_⟩
+      rcases hsh with hm | ⟨c, hc, haw⟩
+      · exact Or.inl hm
+      · exact Or.inr ⟨c, by rw [hr, hc]; exact holderPreimageStored_awaiting c s.st.best, haw⟩
+    · refine ⟨?_, ?_⟩
       · show preKnown (addPre s.pre p) i.needs = true
         have hn' : i.needs = some p := hn
         rw [hn']
         simp only [preKnown, List.contains_iff_mem]
         exact (mem_addPre _ _ _).2 (Or.inr rfl)
-      · have h2 : req.2 = sh := by rw [hr]
-        rcases fundingSpend_cases hK hI.base hf with ⟨hx, hm⟩ | ⟨c, hx, haw⟩
-        · left
-          have : final = true ∧ awH = none := by
-            have := congrArg Prod.snd hx; simp at this; exact this
-          rw [this.1, preimageSpendHeight_final] at hs
-          exact ⟨by rw [h2]; exact (Option.some.inj hs).symm, hm⟩
-        · right
-          have : final = false ∧ awH = some c := by
-            have := congrArg Prod.snd hx; simp at this; exact this
-          rw [this.1, this.2, preimageSpendHeight_awaiting] at hs
-          exact ⟨c, by rw [h2]; exact (Option.some.inj hs).symm, haw⟩
+      · rcases hsh with hm | ⟨c, hc, haw⟩
+        · exact Or.inl hm
+        · exact Or.inr ⟨c, by rw [hr, hc], haw⟩
   constructor
   · exact hI.base
-  · intro o i c hoi hh hx
+  · intro o i c hoi hx
     rw [hst]
     rw [hcl] at hx
     rcases mem_registerAll hx with h1 | ⟨req, hreq, hxe, _⟩
-    · exact hI.dated o i c hoi hh h1
+    · exact hI.dated o i c hoi h1
     · have ho : req.1 = o := by cases hxe; rfl
       have hc : c = claimCreationHeight req.2 (preimageRegisterHeight K s.st) := by cases hxe; rfl
-      rcases (reqFacts req hreq o i hoi ho).2 hh with ⟨_, hm⟩ | ⟨c0, h2, haw⟩
+      rcases (reqFacts req hreq o i hoi ho).2 with hm | ⟨c0, h2, haw⟩
       · exact Or.inr hm
       · rw [h2, claimCreationHeight_some] at hc
         rw [hc]; exact Or.inl haw
@@ -810,12 +830,12 @@ theorem cPreimage_inv {cat : Catalog} {K : ClaimCat} {C : Nat} {U : Nat → Prop
     · exact preKnown_mono preMono (hI.preK o i c hoi h1)
     · have ho : req.1 = o := by cases hxe; rfl
       exact (reqFacts req hreq o i hoi ho).1
-  · intro o i c hoi hh hU hk haw hm
+  · intro o i c hoi hU hk haw hm
     rw [hst] at haw hm
     rw [hpre] at hk
     rw [hcl]
     by_cases hold : preKnown s.pre i.needs = true
-    · exact registerAll_mono (hI.kept o i c hoi hh hU hold haw hm)
+    · exact registerAll_mono (hI.kept o i c hoi hU hold haw hm)
     · -- the preimage just provided is the one this output needs
       have hn : i.needs = some p := by
         cases hneeds : i.needs with
@@ -827,17 +847,21 @@ theorem cPreimage_inv {cat : Catalog} {K : ClaimCat} {C : Nat} {U : Nat → Prop
           · exact absurd h1 hold
           · rw [h1]
       have hf := fundingSpend_awaiting hK hI.base haw hm
-      have hreq0 := preimageRequests_has (K := K) (pre' := addPre s.pre p) (p := p) hf
-        (preimageSpendHeight_awaiting c s.st.best) hoi (hK.parents o i hoi) hh hn
+      have hs := preimageSpendHeight_awaiting c s.st.best
+      have hreq0 : ∃ oc, ((o, oc) : Nat × Option Nat) ∈ preimageRequests K s.st (addPre s.pre p) p := by
+        cases hh : i.holder with
+        | false => exact ⟨_, preimageRequests_has (K := K) (pre' := addPre s.pre p) (p := p) hf hs hoi (hK.parents o i hoi) hh hn⟩
+        | true => exact ⟨_, preimageRequests_has_holder (K := K) (pre' := addPre s.pre p) (p := p) hf hs hoi (hK.parents o i hoi) hh hk⟩
+      obtain ⟨oc, hreq0⟩ := hreq0
       obtain ⟨c', hc'⟩ := hasClaim_iff.1 (registerAll_has (H := preimageRegisterHeight K s.st) (cl := s.claims) hreq0)
       have hcc : c' = c := by
         rcases mem_registerAll hc' with h4 | ⟨req, hreq, hxe, _⟩
-        · rcases hI.dated o i c' hoi hh h4 with h5 | h5
+        · rcases hI.dated o i c' hoi h4 with h5 | h5
           · exact FscAw_unique hI.base h5 haw
           · exact absurd h5 hm
         · have ho : req.1 = o := by cases hxe; rfl
           have hc : c' = claimCreationHeight req.2 (preimageRegisterHeight K s.st) := by cases hxe; rfl
-          rcases (reqFacts req hreq o i hoi ho).2 hh with ⟨_, hm'⟩ | ⟨c0, h2, haw0⟩
+          rcases (reqFacts req hreq o i hoi ho).2 with hm' | ⟨c0, h2, haw0⟩
           · exact absurd hm' hm
           · rw [h2, claimCreationHeight_some] at hc
             rw [hc]; exact FscAw_unique hI.base haw0 haw
